@@ -31,7 +31,7 @@ func (e *C20) MinNontrivial(tier string) int { return 100 }
 
 func (e *C20) Plan(tier string, seed uint64) int {
 	if tier == "thorough" {
-		return 20000
+		return 300000
 	}
 	return 3000
 }
